@@ -3,6 +3,7 @@
 #include "mod.h"
 
 #define M_SRC_INTERNAL          1 << 7
+#define M_SRC_ZOMBIE            1 << 6  // src left its module (deregistered, fired oneshot, module stopped); it may still be referenced by events
 #define M_SRC_PRIO_MASK         (M_SRC_PRIO_HIGH << 1) - 1
 #define M_SRC_ASSERT_PRIO_FLAGS() \
     int prio_flags = flags & M_SRC_PRIO_MASK; \
@@ -103,6 +104,7 @@ typedef struct {
 } ps_priv_t;
 
 extern const char *src_names[];
+void src_release(void *src);
 int init_src(m_mod_t *mod, m_src_types t);
 int register_mod_src(m_mod_t *mod, m_src_types type, const void *src_data,
                  m_src_flags flags, const void *userptr);
